@@ -16,12 +16,22 @@ type vslowsec struct {
 	armed   bool
 	entered chan int
 	release chan struct{}
+	// a Get whose answer is already read but still on its way back (a slow disk or network)
+	armedGet   bool
+	enteredGet chan int
+	releaseGet chan struct{}
 }
 
 func (s *vslowsec) Get(key int) (int, int64, int64, bool, error) {
 	s.mu.Lock()
-	defer s.mu.Unlock()
 	e, ok := s.m[key]
+	armed := s.armedGet
+	s.armedGet = false
+	s.mu.Unlock()
+	if armed {
+		s.enteredGet <- key
+		<-s.releaseGet
+	}
 	if !ok {
 		return 0, 0, 0, false, nil
 	}
@@ -157,5 +167,64 @@ func TestVerifHybridSlow(t *testing.T) {
 		s.Close()
 		VerifYield.Store(nil)
 		tr.op("trial", ss("98", b2s(isSet)), ss("1"))
+	}
+	// the other direction: a Get that is answered from the secondary tier (promotion) is slow, and a Delete / Set of
+	// the same key completes meanwhile (if the code lets it).  Whatever the interleaving, a Get that STARTS after the
+	// Delete has returned must miss, and one that starts after the Set has returned must see the new value.
+	for c := 0; c < trials; c++ {
+		sec := &vslowsec{m: map[int][3]int64{}, entered: make(chan int, 1), release: make(chan struct{}),
+			enteredGet: make(chan int, 1), releaseGet: make(chan struct{})}
+		s := NewStore(&StoreOptions[int, int]{MaxSize: int64(4 + r.intn(60)), SecondaryCache: sec, Workers: 1, Probability: 1})
+		key := r.intn(1000)
+		for k := 0; k < r.intn(4); k++ {
+			s.Set(2000+k, k, 1, 0)
+		}
+		s.Wait()
+		sec.mu.Lock()
+		sec.m[key] = [3]int64{int64(111 + c), 1, 0}
+		sec.armedGet = true
+		sec.mu.Unlock()
+		gdone := make(chan struct{})
+		go func() { s.GetWithSecodary(key); close(gdone) }()
+		select {
+		case <-sec.enteredGet:
+		case <-time.After(10 * time.Second):
+			tr.viol(fmt.Sprintf("C10: Get(%d) of a key that lives in the secondary tier did not reach the secondary cache within 10 s", key))
+			s.Close()
+			continue
+		}
+		isSet := c%3 == 2
+		newval := 7000 + c
+		fdone := make(chan struct{})
+		go func() {
+			if isSet {
+				s.Set(key, newval, 1, 0)
+			} else {
+				s.DeleteWithSecondary(key)
+			}
+			close(fdone)
+		}()
+		select {
+		case <-fdone:
+		case <-time.After(time.Duration(1+r.intn(10)) * time.Millisecond):
+		}
+		sec.releaseGet <- struct{}{}
+		for _, ch := range []chan struct{}{gdone, fdone} {
+			select {
+			case <-ch:
+			case <-time.After(10 * time.Second):
+				tr.viol(fmt.Sprintf("C10: a Get of key %d answered by a slow secondary cache and a concurrent %s did not both return within 10 s", key, map[bool]string{true: "Set", false: "Delete"}[isSet]))
+			}
+		}
+		s.Wait()
+		v, ok, _ := s.GetWithSecodary(key)
+		if isSet && (!ok || v != newval) {
+			tr.viol(fmt.Sprintf("C14: Get(%d) returned (%d,%v) after Set(%d,%d) had returned; a Get answered by the (slow) secondary cache was in flight during the Set", key, v, ok, key, newval))
+		}
+		if !isSet && ok {
+			tr.viol(fmt.Sprintf("C14: Get(%d) returned %d after Delete(%d) had returned; a Get answered by the (slow) secondary cache was in flight during the Delete", key, v, key))
+		}
+		s.Close()
+		tr.op("trial", ss("97", b2s(isSet)), ss("1"))
 	}
 }
